@@ -108,7 +108,7 @@ type scriptStream struct {
 	taken  int // responses handed to the client by Recv
 }
 
-func (s *scriptStream) Context() context.Context    { return s.ctx }
+func (s *scriptStream) Context() context.Context     { return s.ctx }
 func (s *scriptStream) MsgSend(m srpc.Message) error { return errors.New("verif: MsgSend unused") }
 func (s *scriptStream) MsgRecv(m srpc.Message) error { return errors.New("verif: MsgRecv unused") }
 func (s *scriptStream) CloseSend() error             { return nil }
@@ -249,7 +249,7 @@ type relayConn struct {
 // client side
 type relayCliStream struct{ c *relayConn }
 
-func (s relayCliStream) Context() context.Context    { return s.c.ctx }
+func (s relayCliStream) Context() context.Context     { return s.c.ctx }
 func (s relayCliStream) MsgSend(m srpc.Message) error { return errors.New("verif: unused") }
 func (s relayCliStream) MsgRecv(m srpc.Message) error { return errors.New("verif: unused") }
 func (s relayCliStream) CloseSend() error             { return nil }
@@ -276,7 +276,7 @@ func (s relayCliStream) RecvTo(m *signaling_rpc.SessionResponse) error {
 // relay side
 type relaySrvStream struct{ c *relayConn }
 
-func (s relaySrvStream) Context() context.Context    { return s.c.ctx }
+func (s relaySrvStream) Context() context.Context     { return s.c.ctx }
 func (s relaySrvStream) MsgSend(m srpc.Message) error { return errors.New("verif: unused") }
 func (s relaySrvStream) MsgRecv(m srpc.Message) error { return errors.New("verif: unused") }
 func (s relaySrvStream) CloseSend() error             { return nil }
